@@ -338,6 +338,8 @@ fn fit_once_t<T: Elem, M: Mx<T>>(case: &Case, ambient: &Option<TapeSpec>, layout
             }
         };
         let via_trait = case.ctor / 3 == 1;
+        // (for odd seeds the value handed over is a clone of the one that was built)
+        let params = if case.params.seed % 2 == 1 { params.clone() } else { params };
         match guarded(|| if via_trait { <RandomForestClassifier<T> as SupervisedEstimator<M, M::RowVector, RandomForestClassifierParameters>>::fit(&x, &yt, params) } else { RandomForestClassifier::<T>::fit(&x, &yt, params) }) {
             Err(msg) => out.err = Some(format!("panic: {}", msg)),
             Ok(Err(e)) => out.err = Some(format!("error: {}", e)),
@@ -422,6 +424,8 @@ fn fit_once_t<T: Elem, M: Mx<T>>(case: &Case, ambient: &Option<TapeSpec>, layout
             }
         };
         let via_trait = case.ctor / 3 == 1;
+        // (for odd seeds the value handed over is a clone of the one that was built)
+        let params = if case.params.seed % 2 == 1 { params.clone() } else { params };
         match guarded(|| if via_trait { <RandomForestRegressor<T> as SupervisedEstimator<M, M::RowVector, RandomForestRegressorParameters>>::fit(&x, &yt, params) } else { RandomForestRegressor::<T>::fit(&x, &yt, params) }) {
             Err(msg) => out.err = Some(format!("panic: {}", msg)),
             Ok(Err(e)) => out.err = Some(format!("error: {}", e)),
